@@ -321,7 +321,7 @@ func TestC20(t *testing.T) {
 		return sb.String()
 	})
 	edit := func(rt *rapid.T, s string) string {
-		pool := "@.-_ aZ9:/\x00é"
+		pool := "@.-_ aZ9:/\x00é,;<>()[]\\\"!#$%&'*+=?^`{|}~\t\n\x7f"
 		i := rapid.IntRange(0, len(s)).Draw(rt, "ei")
 		c := string(pool[rapid.IntRange(0, len(pool)-1).Draw(rt, "ec")])
 		switch rapid.IntRange(0, 2).Draw(rt, "ek") {
@@ -339,6 +339,27 @@ func TestC20(t *testing.T) {
 			return c + s
 		}
 	}
+	// 7a. every single byte at every position class of the Email and UUID grammars (character classes, exhaustively)
+	hh.Enumerate(h, "grammar-bytes", func(yield func(c20Case)) {
+		for b := 0; b < 256; b++ {
+			c := string([]byte{byte(b)})
+			subjects := []string{
+				c + "@ex.com", "a" + c + "b@ex.com", "ab" + c + "@ex.com", // local part: first, inner, last
+				"ab@" + c + "x.com", "ab@e" + c + "x.com", "ab@ex" + c + ".com", "ab@ex.c" + c + "m", "ab@ex.co" + c, // labels: first, inner, last
+			}
+			for _, sub := range subjects {
+				for _, not := range []bool{false, true} {
+					yield(c20Case{Kind: model.KString, Test: model.TestSpec{Name: "email", Not: not}, Subject: model.Str(sub), Mode: modes[(b+len(sub))%len(modes)]})
+				}
+			}
+			uuid := "123e4567-e89b-12d3-a456-426614174000"
+			for _, pos := range []int{0, 7, 8, 9, 13, 14, 18, 19, 23, 35} { // hex digits, the four dashes, both ends
+				sub := uuid[:pos] + c + uuid[pos+1:]
+				yield(c20Case{Kind: model.KString, Test: model.TestSpec{Name: "uuid"}, Subject: model.Str(sub), Mode: modes[(b+pos)%len(modes)]})
+			}
+		}
+	}, propC20(nil))
+
 	hh.Sub(h, "grammar", h.N(20000, 100000), func(rt *rapid.T) c20Case {
 		which := rapid.SampledFrom([]string{"email", "uuid", "url"}).Draw(rt, "which")
 		var s string
